@@ -362,7 +362,7 @@ def _shape_of_foreign(name, lw):
   return 'unknown_uid:' + str(seg)[:20]
 
 
-def _exec(sim, test, start, out, key, reps, ctx):
+def _exec(sim, test, start, out, key, reps, ctx, xkw=None):
   out[key] = []
   for r in range(reps):
     if r:
@@ -371,7 +371,7 @@ def _exec(sim, test, start, out, key, reps, ctx):
       ctx.diag_calls.clear()
     sim.event('exec_call', key, r)
     try:
-      out[key].append(('ret', test.execute(test_start=start)))
+      out[key].append(('ret', test.execute(test_start=start, **(xkw or {}))))
     except core.SimAbort:
       raise
     except BaseException as e:  # pylint: disable=broad-except
@@ -414,6 +414,9 @@ def run_one(tape):
       kind = tape.weighted([(3, 'framework'), (3, 'own'), (2, 'own_child'), (1, 'prefix'), (1, 'longer'), (1, 'bogus'),
                             (1, 'stdlib_child'), (1, 'bare_prefix')], 'okind')
       plan.append((kind, tape.draw(ls.N_SHAPES, 'oshape'), tape.pick([0, 0, 0.001, 0.05, 0.3], 'opause')))
+  # profiling on, and the combined profile cannot be written (e.g. a missing directory): the
+  # run still has to give up its log handler
+  profile_fault = tape.chance(120, 'profile_write_fails')
   abort = tape.chance(200, 'abort')
   abort_step = 50 + tape.draw(6000, 'abort_step') if abort else None
   knobs = run_mod.draw_knobs(tape, 900.0)
@@ -446,6 +449,15 @@ def run_one(tape):
   post = {}
   failed = None
   lw.install()
+  from openhtf.core import test_executor as _te
+  saved_combine = _te.combine_profile_stats
+  xkw_a = {}
+  if profile_fault:
+    def _cannot_write(stats, filename):
+      raise OSError(2, 'No such file or directory', filename)
+    _te.combine_profile_stats = _cannot_write
+    xkw_a = {'profile_filename': '/nonexistent-dir/profile.out'}
+    faults['profile_write_fails'] = 1
   try:
     with env.NoGC(10):
       sim.begin()
@@ -473,7 +485,7 @@ def run_one(tape):
             gate.open()
           sim.at_step(abort_step, fire)
           faults['operator_abort'] = 1
-        _exec(sim, test_a, start_a, out, 'A', reps_a, ctx_a)
+        _exec(sim, test_a, start_a, out, 'A', reps_a, ctx_a, xkw_a)
         sim.triggers.clear()
         sim.next_trigger = None
         done['stop'] = True
@@ -507,6 +519,7 @@ def run_one(tape):
         sim.end()
   finally:
     lw.uninstall()
+    _te.combine_profile_stats = saved_combine
     htf_logger.handlers = saved_logging[0]
     htf_logger.setLevel(saved_logging[1])
     htf_logger.propagate = saved_logging[2]
